@@ -3,6 +3,6 @@ EXTENDS ModelObjTrace
 CONSTANT Depth
 ValsM101 == {-1, 0, 1}
 Vals01 == {0, 1}
-StaleOps == {"setitem", "toenum", "refresh", "copy", "new"}
+StaleOps == {"setitem", "toenum", "refresh", "copy", "new", "setmap"}
 LitOps == {"setitem", "augadd", "imul", "bin", "mulraise", "value"}
 =============================================================================
